@@ -11,6 +11,7 @@ import json
 import multiprocessing as mp
 import os
 import random
+import re
 from fractions import Fraction
 
 from .. import core, lexref
@@ -64,8 +65,10 @@ def run_gen(ctx, pieces, maxp, label):
         raise core.MachineryError('GenLex %s: %d states but %d records' % (label, r.distinct, n))
 
 
-def impl_trace(src, chunks):
-    toks, err = lexref.lex_impl(chunks)
+def impl_trace(src, chunks, toks=None):
+    err = None
+    if toks is None:
+        toks, err = lexref.lex_impl(chunks)
     if toks is None:
         return None, err
     ls = lexref.line_starts(src)
@@ -155,6 +158,64 @@ def run_traces(ctx, sources):
     ctx.sample({'trace': meta[0][0], 'chunking': meta[0][1], 'tokens': len(traces[0]['toks']), 'verdict': verdicts[0][0]})
 
 
+def _file_tokens(item):
+    """the token list as a user of the library gets it for a cart FILE: the code goes through the .p8 reader (per-line
+    chunks) or the .p8.png reader (one chunk) before it reaches the lexer"""
+    name, src, how, tmp = item
+    import tempfile
+    import shutil
+    from pico8.game import file as gfile
+    from .. import cartio
+    core.quiet_picotool()
+    d = tempfile.mkdtemp(prefix='c07f_', dir=tmp)
+    try:
+        if how == 'p8':
+            fp = os.path.join(d, 'c.p8')
+            with open(fp, 'wb') as f:
+                f.write(b'pico-8 cartridge // http://www.pico-8.com\nversion 8\n__lua__\n' + src + b'__gfx__\n')
+        else:
+            fp = os.path.join(d, 'c.p8.png')
+            gfile.to_file(cartio.make_game(cartio.memory((0, 0), {}), src, None, 8), fp)
+        g = gfile.from_file(fp)
+        if how == 'png' and cartio.game_code(g) == src + b'\n':
+            src = src + b'\n'          # (a raw-stored code gains a final newline when read: the normalisation C04 allows)
+        toks, err = impl_trace(src, None, toks=g.lua.tokens)
+    except Exception as e:  # noqa
+        toks, err = None, '%s: %s' % (type(e).__name__, str(e)[:60])
+    shutil.rmtree(d, ignore_errors=True)
+    return toks, err, src
+
+
+def file_paths(ctx, sources):
+    items = []
+    for name, src in sources:
+        if not src.endswith(b'\n') or any(c >= 128 or (c < 32 and c not in (9, 10)) for c in src) or re.search(rb'(^|\n)__\w+__\n', src):
+            continue            # (hand-written .p8 text: ASCII sources only; a final newline so that the section text is the source)
+        items.append((name, src, 'p8', ctx.tmp))
+        if len(src) < 3000:
+            items.append((name, src, 'png', ctx.tmp))
+    res = core.parmap(_file_tokens, items, procs=16, min_parallel=8)
+    traces, meta = [], []
+    for (name, src0, how, _), (toks, err, src) in zip(items, res):
+        traces.append({'src': list(src), 'toks': toks or []})
+        meta.append((name, how, src, err))
+    if not traces:
+        return
+    verdicts = ctx.validate('TraceLex', traces)
+    for (name, how, src, err), v in zip(meta, verdicts):
+        ctx.evaluations += 1
+        if v[0] == 'ok':
+            ctx.nontrivial += 1
+        elif v[0] == 'ood':
+            ctx.out_of_domain += 1
+        else:
+            n, i = v[1], v[2]
+            ctx.violation('%s/file-%s:%s' % (v[0], how, lexref.shape(src[max(i - 1, 0):i + 11])),
+                          'token list of a cart loaded from a .%s file rejected by TraceLex (%s) at token %d offset %d of %s%s' % (
+                              'p8' if how == 'p8' else 'p8.png', v[0], n, i, name, ('; error: ' + err) if err else ''),
+                          {'kind': 'lextrace', 'src': list(src), 'chunking': how})
+
+
 def run(ctx):
     rnd = random.Random(ctx.seed)
     ctx.rule = ('GenLex: every concatenation of <= N pieces over a class alphabet / the token spelling classes; '
@@ -187,6 +248,8 @@ def run(ctx):
     from ..progs import program_sources
     gen = program_sources(ctx, rnd, 150 if ctx.quick else 1500)
     run_traces(ctx, srcs + extra + gen)
+    ws = [('ws-probe', b's = [[ab  \ncd\t\n]]  \nx = 1\t \n-- c  \n  y = "q"   \n')]
+    file_paths(ctx, ws + srcs + gen[:(60 if ctx.quick else 600)])
     ctx.sample({'gen': 'GenLex', 'example': 'a>>>b', 'expected': [['name', 2], ['sym', 5], ['name', 6]]})
 
 
